@@ -8,7 +8,7 @@ Case = {'cidr': '10.0.0.0/29', 'ops': [...]}, ops (owners / apps / protos / endp
   ['rcreate', RULE, o] ['runlink', RULE, o] ['rgc']                            RuleMgr
   ['ecreate', SPEC, o|None] ['eunlink', SPEC, o|None]
   ['eunlinkall', app, proto|None, endpoint|None, o|None] ['egc']               EndpointsMgr
-  ['srestart'] ['screate', o, env] ['sdelete', o] ['ssync']                    NetworkResourceService
+  ['srestart'] ['screate', o, env] ['sdelete', o] ['ssync'] ['devgone', o]     NetworkResourceService
 RULE = [chain, 'dnat'|'snat', proto, src_ip|None, src_port|None, dst_ip|None, dst_port|None, new_ip, new_port]
        | [chain, 'pt', src_ip, dst_ip]
 SPEC = [appname, proto, endpoint, real_port, pid, port]
@@ -200,10 +200,13 @@ def gen_case(rng, pid, tier):
                 clients.add(who)
         elif r < 0.97:
             # service restart as `_base_service` runs it: initialize, replay live requests, synchronize
+            for c in sorted(clients & live):
+                if rng.random() < 0.25:
+                    ops.append(['devgone', c])       # a container that died and was not finished yet
             ops.append(['srestart'])
             for c in sorted(clients & live):
                 if not (malformed and rng.random() < 0.3):
-                    ops.append(['screate', c, envof[c]])
+                    ops.append(['screate', c, envof[c], 'replay'])
             if rng.random() < 0.85:
                 ops.append(['ssync'])
         elif r < 0.98:
@@ -503,6 +506,30 @@ def _run(case, root):
             stats['gc_mixed'] += 1
 
     svc_box = [None]
+    import yaml as yaml_mod
+    from treadmill.services import _base_service as bsvc
+    req_root = os.path.join(root, 'netsvc-requests')
+    os.makedirs(req_root, exist_ok=True)
+    class _Rs(bsvc.ResourceService):
+        """The real base service as far as the replay of a request goes (`_on_created`)."""
+        __slots__ = ()
+
+        def __init__(self):                                 # pylint: disable=super-init-not-called
+            pass
+
+        def _run(self, impl, watchdog_lease):
+            raise NotImplementedError
+
+        def clt_update_request(self, req_id):
+            raise NotImplementedError
+
+        def status(self, timeout=30):
+            raise NotImplementedError
+    rsvc = _Rs()
+    try:
+        rsvc._rsrc_dir = req_root                                            # pylint: disable=protected-access
+    except AttributeError:
+        object.__setattr__(rsvc, '_rsrc_dir', req_root)
 
     def new_service():
         s = network_service.NetworkResourceService(ext_device='eth0', ext_ip='1.2.3.4', ext_mtu=9000,
@@ -561,6 +588,11 @@ def _run(case, root):
                         os.unlink(os.path.join(owners_dir, op[1]))
                     except OSError:
                         pass
+                elif kind == 'devgone':
+                    # the container of this request died: the kernel destroyed its veth pair with the namespace;
+                    # the request (the owner) is still there
+                    line = 'devgone %d' % intern(op[1])
+                    kern.devs.pop(network_service._device_from_rsrc_id(op[1])[0], None)   # pylint: disable=protected-access
                 elif kind == 'touch':
                     t, nm = op[1]
                     if t == 'v':
@@ -800,7 +832,46 @@ def _run(case, root):
                     line = 'screate %d %s' % (intern(who), op[2])
                     site = 'NetworkResourceService.on_create_request'
                     prev = [k[1] for k in beliefs.get(who, ()) if k[0] == 'svip']
-                    out = svc.on_create_request(who, {'environment': op[2]})
+                    req_dir = os.path.join(req_root, who.replace('/', '_'))
+                    if len(op) > 3 and op[3] == 'replay' and os.path.exists(os.path.join(req_dir, bsvc.REP_FILE)):
+                        # the restarted service replays the request as `_base_service` does: the real
+                        # ResourceService._on_created on the request directory (request and reply still there)
+                        stats['replay-through-base-service'] = stats.get('replay-through-base-service', 0) + 1
+                        with open(os.path.join(req_dir, bsvc.REQ_FILE)) as f_:
+                            file_env = (yaml_mod.safe_load(f_) or {}).get('environment')
+                        # (what is replayed is the request as it was written: its own environment)
+                        line = 'screate %d %s' % (intern(who), file_env)
+                        raised_in_impl = []
+                        real_svc = svc
+
+                        class _Impl(object):
+                            """The service implementation as `_on_created` uses it, remembering what it raised."""
+                            PAYLOAD_SCHEMA = real_svc.PAYLOAD_SCHEMA
+
+                            @staticmethod
+                            def on_create_request(rid_, data_):
+                                try:
+                                    return real_svc.on_create_request(rid_, data_)
+                                except Exception as exc_:  # pylint: disable=broad-except
+                                    raised_in_impl.append(exc_)
+                                    raise
+                        acted = rsvc._on_created(_Impl(), req_dir)                # pylint: disable=protected-access
+                        with open(os.path.join(req_dir, bsvc.REP_FILE)) as f_:
+                            out = yaml_mod.safe_load(f_)
+                        if raised_in_impl:
+                            # the implementation raised: the base service turned that into an error reply
+                            raise raised_in_impl[0]
+                        if not acted:
+                            hit('replay-not-actioned', 'ResourceService._on_created',
+                                'the request of live %s was not replayed into the restarted service' % who)
+                    else:
+                        out = svc.on_create_request(who, {'environment': op[2]})
+                        # what the base service leaves for a successful request: request.yml and reply.yml
+                        os.makedirs(req_dir, exist_ok=True)
+                        with open(os.path.join(req_dir, bsvc.REQ_FILE), 'w') as f_:
+                            yaml_mod.safe_dump({'environment': op[2]}, f_)
+                        with open(os.path.join(req_dir, bsvc.REP_FILE), 'w') as f_:
+                            yaml_mod.safe_dump(dict(out), f_)
                     ip = out['vip']
                     res = 'ip:%d' % ip_int(ip)
                     if not _is_host(svc_tm_net, ipaddress.IPv4Address(ip)):
